@@ -127,6 +127,14 @@ func makeRemoteSource(sourceType string, u *url.URL, subPath string) (RemoteSour
 		}
 	}
 
+	if u.Opaque != "" || u.Host == "" {
+		// For example "https:example.com/foo" or "https:///foo": url.URL
+		// prints an opaque URL without its Path, and a URL without a host
+		// without the "//" that our sub-path syntax relies on, so a sub-path
+		// could not be represented faithfully.
+		return RemoteSource{}, fmt.Errorf("must contain a hierarchical URL with a hostname, like \"https://example.com/...\"")
+	}
+
 	// These rules are also enforced by ParseRemoteSource, but addresses
 	// assembled from parts by MakeRemoteSource must satisfy them too.
 	if u.User != nil {
